@@ -97,42 +97,42 @@ theorem pow256 (k : Nat) : (2 : Nat) ^ (8 * k) = 256 ^ k := by
 
 /-! ## sequential specification -/
 
-theorem service_bytes (nb : Nat) (r : Req) (m : Store) (h : Bytes m) : Bytes (service nb r m).2 := by
+theorem service_bytes (r : Req) (m : Store) (h : Bytes m) : Bytes (service r m).2 := by
   unfold service
   cases r.kind with
   | read => exact h
   | write => exact write_bytes _ _ _ _ h
   | amo op => exact write_bytes _ _ _ _ h
 
-theorem seqSpec_bytes (nb : Nat) : ∀ (l : List Req) (m : Store), Bytes m → Bytes (seqSpec nb l m).2
+theorem seqSpec_bytes : ∀ (l : List Req) (m : Store), Bytes m → Bytes (seqSpec l m).2
   | [], _, h => h
   | r :: rs, m, h => by
     simp only [seqSpec]
-    exact seqSpec_bytes nb rs _ (service_bytes nb r m h)
+    exact seqSpec_bytes rs _ (service_bytes r m h)
 
-theorem seqSpec_append (nb : Nat) : ∀ (l1 l2 : List Req) (m : Store),
-    seqSpec nb (l1 ++ l2) m =
-      ((seqSpec nb l1 m).1 ++ (seqSpec nb l2 (seqSpec nb l1 m).2).1, (seqSpec nb l2 (seqSpec nb l1 m).2).2)
+theorem seqSpec_append : ∀ (l1 l2 : List Req) (m : Store),
+    seqSpec (l1 ++ l2) m =
+      ((seqSpec l1 m).1 ++ (seqSpec l2 (seqSpec l1 m).2).1, (seqSpec l2 (seqSpec l1 m).2).2)
   | [], l2, m => by simp [seqSpec]
   | r :: rs, l2, m => by
     simp only [List.cons_append, seqSpec]
-    rw [seqSpec_append nb rs l2]
+    rw [seqSpec_append rs l2]
 
-theorem seqSpec_length (nb : Nat) : ∀ (l : List Req) (m : Store), (seqSpec nb l m).1.length = l.length
+theorem seqSpec_length : ∀ (l : List Req) (m : Store), (seqSpec l m).1.length = l.length
   | [], _ => rfl
-  | r :: rs, m => by simp [seqSpec, seqSpec_length nb rs]
+  | r :: rs, m => by simp [seqSpec, seqSpec_length rs]
 
-theorem runLog_seqSpec (nb : Nat) : ∀ (log : List (Nat × Req)) (m : Store),
-    runLog nb log m = ((log.map (·.1)).zip (seqSpec nb (log.map (·.2)) m).1, (seqSpec nb (log.map (·.2)) m).2)
+theorem runLog_seqSpec : ∀ (log : List (Nat × Req)) (m : Store),
+    runLog log m = ((log.map (·.1)).zip (seqSpec (log.map (·.2)) m).1, (seqSpec (log.map (·.2)) m).2)
   | [], _ => rfl
   | (i, r) :: rs, m => by
     simp only [runLog, List.map_cons, seqSpec, List.zip_cons_cons]
-    rw [runLog_seqSpec nb rs]
+    rw [runLog_seqSpec rs]
 
-theorem runLog_snoc (nb : Nat) : ∀ (log : List (Nat × Req)) (m0 : Store) (rlog : List (Nat × Resp)) (m : Store)
+theorem runLog_snoc : ∀ (log : List (Nat × Req)) (m0 : Store) (rlog : List (Nat × Resp)) (m : Store)
     (i : Nat) (r : Req) (x : Resp) (m' : Store),
-    runLog nb log m0 = (rlog, m) → service nb r m = (x, m') →
-    runLog nb (log ++ [(i, r)]) m0 = (rlog ++ [(i, x)], m')
+    runLog log m0 = (rlog, m) → service r m = (x, m') →
+    runLog (log ++ [(i, r)]) m0 = (rlog ++ [(i, x)], m')
   | [], m0, rlog, m, i, r, x, m', h, hs => by
     simp only [runLog, Prod.mk.injEq] at h
     obtain ⟨h1, h2⟩ := h
@@ -141,20 +141,20 @@ theorem runLog_snoc (nb : Nat) : ∀ (log : List (Nat × Req)) (m0 : Store) (rlo
   | (j, q) :: rs, m0, rlog, m, i, r, x, m', h, hs => by
     simp only [runLog, Prod.mk.injEq] at h
     obtain ⟨h1, h2⟩ := h
-    have ih := runLog_snoc nb rs (service nb q m0).2 (runLog nb rs (service nb q m0).2).1 m i r x m'
+    have ih := runLog_snoc rs (service q m0).2 (runLog rs (service q m0).2).1 m i r x m'
       (by rw [← h2]) hs
     simp only [List.cons_append, runLog, ih]
     rw [← h1]; simp
 
 /-- `service` echoes type and opaque, and sets the test field to 0 -/
-theorem service_echo (nb : Nat) (r : Req) (m : Store) :
-    (service nb r m).1.type = r.kind.code ∧ (service nb r m).1.opq = r.opq ∧ (service nb r m).1.test = 0 := by
+theorem service_echo (r : Req) (m : Store) :
+    (service r m).1.type = r.kind.code ∧ (service r m).1.opq = r.opq ∧ (service r m).1.test = 0 := by
   unfold service
   cases r.kind <;> simp [Kind.code]
 
-theorem service_store (nb : Nat) (r : Req) (m : Store) (b : Nat) :
-    (service nb r m).2 b =
-      match effect nb r m with
+theorem service_store (r : Req) (m : Store) (b : Nat) :
+    (service r m).2 b =
+      match effect r m with
       | some e => if e.covers b then e.byte b else m b
       | none => m b := by
   unfold service effect
@@ -172,16 +172,16 @@ theorem latest_append : ∀ (es1 es2 : List WEvent) (b : Nat),
 
 /-- every byte of the final store is the byte put there by the latest processed request that
 stored to it, or the initial byte if there is none -/
-theorem store_latest (nb : Nat) : ∀ (l : List Req) (m : Store) (b : Nat),
-    (seqSpec nb l m).2 b = (latest (effects nb l m) b).getD (m b)
+theorem store_latest : ∀ (l : List Req) (m : Store) (b : Nat),
+    (seqSpec l m).2 b = (latest (effects l m) b).getD (m b)
   | [], m, b => rfl
   | r :: rs, m, b => by
     simp only [seqSpec, effects]
-    rw [store_latest nb rs, latest_append, service_store]
-    cases h : latest (effects nb rs (service nb r m).2) b with
+    rw [store_latest rs, latest_append, service_store]
+    cases h : latest (effects rs (service r m).2) b with
     | some v => simp
     | none =>
-      cases h2 : effect nb r m with
+      cases h2 : effect r m with
       | none => simp [latest]
       | some e =>
         simp only [Option.toList, latest, Option.getD]
@@ -525,16 +525,16 @@ theorem View.Local.refl (v : View) : v.Local v := ⟨rfl, rfl⟩
 theorem View.Local.trans {a b c : View} (h1 : a.Local b) (h2 : b.Local c) : a.Local c :=
   ⟨h2.1.trans h1.1, h2.2.trans h1.2⟩
 
-structure Inv (n nb : Nat) (reqs : Nat → List Req) (m0 : Store) (view : Nat → View)
+structure Inv (n : Nat) (reqs : Nat → List Req) (m0 : Store) (view : Nat → View)
     (store : Store) (log : List (Nat × Req)) (rlog : List (Nat × Resp)) : Prop where
-  spec : runLog nb log m0 = (rlog, store)
+  spec : runLog log m0 = (rlog, store)
   req : ∀ i, procs i log ++ ((view i).inReq ++ (view i).pending) = reqs i
   resp : ∀ i, (view i).delivered ++ (view i).inResp = portResps i rlog
   bound : ∀ e ∈ log, e.1 < n
 
-theorem Inv.local_step {n nb reqs m0 view store log rlog} (h : Inv n nb reqs m0 view store log rlog)
+theorem Inv.local_step {n reqs m0 view store log rlog} (h : Inv n reqs m0 view store log rlog)
     (view' : Nat → View) (i : Nat) (hv : ∀ j, j ≠ i → view' j = view j) (hl : (view i).Local (view' i)) :
-    Inv n nb reqs m0 view' store log rlog := by
+    Inv n reqs m0 view' store log rlog := by
   refine ⟨h.spec, ?_, ?_, h.bound⟩
   · intro j
     by_cases hj : j = i
@@ -545,11 +545,11 @@ theorem Inv.local_step {n nb reqs m0 view store log rlog} (h : Inv n nb reqs m0 
     · subst hj; rw [hl.2]; exact h.resp j
     · rw [hv j hj]; exact h.resp j
 
-theorem Inv.service_step {n nb reqs m0 view store log rlog} (h : Inv n nb reqs m0 view store log rlog)
+theorem Inv.service_step {n reqs m0 view store log rlog} (h : Inv n reqs m0 view store log rlog)
     (view' : Nat → View) (i : Nat) (hi : i < n) (hv : ∀ j, j ≠ i → view' j = view j) (r : Req)
-    (hl : (view i).Served (view' i) r (service nb r store).1) :
-    Inv n nb reqs m0 view' (service nb r store).2 (log ++ [(i, r)]) (rlog ++ [(i, (service nb r store).1)]) := by
-  refine ⟨runLog_snoc nb log m0 rlog store i r _ _ h.spec rfl, ?_, ?_, ?_⟩
+    (hl : (view i).Served (view' i) r (service r store).1) :
+    Inv n reqs m0 view' (service r store).2 (log ++ [(i, r)]) (rlog ++ [(i, (service r store).1)]) := by
+  refine ⟨runLog_snoc log m0 rlog store i r _ _ h.spec rfl, ?_, ?_, ?_⟩
   · intro j
     rw [procs_snoc]
     by_cases hj : j = i
@@ -587,12 +587,12 @@ def respsOf (i : Nat) (log : List (Nat × Req)) (resps : List Resp) : List Resp 
 def tyOpq (x : Resp) : Nat × Nat := (x.type, x.opq)
 def reqTyOpq (r : Req) : Nat × Nat := (r.kind.code, r.opq)
 
-theorem runLog_echo (nb : Nat) (i : Nat) : ∀ (log : List (Nat × Req)) (m : Store),
-    (portResps i (runLog nb log m).1).map tyOpq = (procs i log).map reqTyOpq
+theorem runLog_echo (i : Nat) : ∀ (log : List (Nat × Req)) (m : Store),
+    (portResps i (runLog log m).1).map tyOpq = (procs i log).map reqTyOpq
   | [], _ => rfl
   | (j, r) :: rs, m => by
-    have ih := runLog_echo nb i rs (service nb r m).2
-    have he := service_echo nb r m
+    have ih := runLog_echo i rs (service r m).2
+    have he := service_echo r m
     simp only [runLog, portResps, procs, List.filter_cons] at ih ⊢
     by_cases h : j = i
     · simp only [h, beq_self_eq_true, if_true, List.map_cons, ih, tyOpq, reqTyOpq, he.1, he.2.1]
@@ -621,13 +621,13 @@ theorem portResps_all_zero : ∀ (log : List (Nat × Req)) (resps : List Resp), 
     simp [ih]
 
 section
-variable {n nb : Nat} {reqs : Nat → List Req} {m0 : Store} {view : Nat → View}
+variable {n : Nat} {reqs : Nat → List Req} {m0 : Store} {view : Nat → View}
   {store : Store} {log : List (Nat × Req)} {rlog : List (Nat × Resp)}
 
 /-- the invariant, read against the sequential specification of the processed log -/
-theorem Inv.main (h : Inv n nb reqs m0 view store log rlog) :
-    store = (seqSpec nb (log.map (·.2)) m0).2 ∧
-    (∀ i, (view i).delivered ++ (view i).inResp = respsOf i log (seqSpec nb (log.map (·.2)) m0).1) ∧
+theorem Inv.main (h : Inv n reqs m0 view store log rlog) :
+    store = (seqSpec (log.map (·.2)) m0).2 ∧
+    (∀ i, (view i).delivered ++ (view i).inResp = respsOf i log (seqSpec (log.map (·.2)) m0).1) ∧
     (∀ i, procs i log ++ (view i).inReq ++ (view i).pending = reqs i) := by
   have hs := h.spec
   rw [runLog_seqSpec] at hs
@@ -637,19 +637,19 @@ theorem Inv.main (h : Inv n nb reqs m0 view store log rlog) :
   · intro i; rw [List.append_assoc]; exact h.req i
 
 /-- a port's received responses are a prefix of its responses under the sequential specification -/
-theorem Inv.delivered_prefix (h : Inv n nb reqs m0 view store log rlog) (i : Nat) :
-    (view i).delivered <+: respsOf i log (seqSpec nb (log.map (·.2)) m0).1 :=
+theorem Inv.delivered_prefix (h : Inv n reqs m0 view store log rlog) (i : Nat) :
+    (view i).delivered <+: respsOf i log (seqSpec (log.map (·.2)) m0).1 :=
   ⟨(view i).inResp, (h.main.2.1 i)⟩
 
 /-- the requests of a port the memory has processed are a prefix of the port's request stream -/
-theorem Inv.procs_prefix (h : Inv n nb reqs m0 view store log rlog) (i : Nat) : procs i log <+: reqs i :=
+theorem Inv.procs_prefix (h : Inv n reqs m0 view store log rlog) (i : Nat) : procs i log <+: reqs i :=
   ⟨(view i).inReq ++ (view i).pending, h.req i⟩
 
 /-- responses come back in request order carrying the requests' type and opaque fields -/
-theorem Inv.echo (h : Inv n nb reqs m0 view store log rlog) (i : Nat) :
+theorem Inv.echo (h : Inv n reqs m0 view store log rlog) (i : Nat) :
     (view i).delivered.map tyOpq <+: (reqs i).map reqTyOpq := by
   have h1 : (portResps i rlog).map tyOpq = (procs i log).map reqTyOpq := by
-    have := runLog_echo nb i log m0
+    have := runLog_echo i log m0
     rw [h.spec] at this; exact this
   have h2 : (view i).delivered.map tyOpq <+: (portResps i rlog).map tyOpq := by
     rw [← h.resp i, List.map_append]; exact List.prefix_append _ _
@@ -657,9 +657,9 @@ theorem Inv.echo (h : Inv n nb reqs m0 view store log rlog) (i : Nat) :
   exact h2.trans (List.IsPrefix.map _ (h.procs_prefix i))
 
 /-- nothing in flight: every request was processed and every response delivered -/
-theorem Inv.drained (h : Inv n nb reqs m0 view store log rlog) (i : Nat)
+theorem Inv.drained (h : Inv n reqs m0 view store log rlog) (i : Nat)
     (h1 : (view i).pending = []) (h2 : (view i).inReq = []) (h3 : (view i).inResp = []) :
-    procs i log = reqs i ∧ (view i).delivered = respsOf i log (seqSpec nb (log.map (·.2)) m0).1 := by
+    procs i log = reqs i ∧ (view i).delivered = respsOf i log (seqSpec (log.map (·.2)) m0).1 := by
   have := h.main
   refine ⟨?_, ?_⟩
   · have := this.2.2 i; simpa [h1, h2] using this
@@ -667,9 +667,9 @@ theorem Inv.drained (h : Inv n nb reqs m0 view store log rlog) (i : Nat)
 
 /-- with a single port the response contents do not depend on timing at all: whatever was received
 is a prefix of the sequential specification applied to the port's request list -/
-theorem Inv.single_port (h : Inv 1 nb reqs m0 view store log rlog) :
-    (view 0).delivered <+: (seqSpec nb (reqs 0) m0).1 ∧
-    ((view 0).pending = [] → (view 0).inReq = [] → store = (seqSpec nb (reqs 0) m0).2) := by
+theorem Inv.single_port (h : Inv 1 reqs m0 view store log rlog) :
+    (view 0).delivered <+: (seqSpec (reqs 0) m0).1 ∧
+    ((view 0).pending = [] → (view 0).inReq = [] → store = (seqSpec (reqs 0) m0).2) := by
   have hz := procs_all_zero log h.bound
   have hm := h.main
   have hp := h.procs_prefix 0
@@ -691,14 +691,14 @@ end
 /-! ### ports working on disjoint address regions: contents independent of the interleaving -/
 
 /-- the bytes a request touches -/
-def footprint (nb : Nat) (r : Req) (b : Nat) : Prop := r.addr ≤ b ∧ b < r.addr + nbytes nb r.len
+def footprint (r : Req) (b : Nat) : Prop := r.addr ≤ b ∧ b < r.addr + nbytes r.nb r.len
 
 def AgreeOn (S : Nat → Prop) (m m' : Store) : Prop := ∀ b, S b → m b = m' b
 
-theorem service_congr (nb : Nat) (r : Req) (m m' : Store) (S : Nat → Prop)
-    (hf : ∀ b, footprint nb r b → S b) (h : AgreeOn S m m') :
-    (service nb r m).1 = (service nb r m').1 ∧ AgreeOn S (service nb r m).2 (service nb r m').2 := by
-  have hr : readLE m r.addr (nbytes nb r.len) = readLE m' r.addr (nbytes nb r.len) :=
+theorem service_congr (r : Req) (m m' : Store) (S : Nat → Prop)
+    (hf : ∀ b, footprint r b → S b) (h : AgreeOn S m m') :
+    (service r m).1 = (service r m').1 ∧ AgreeOn S (service r m).2 (service r m').2 := by
+  have hr : readLE m r.addr (nbytes r.nb r.len) = readLE m' r.addr (nbytes r.nb r.len) :=
     read_congr _ _ _ _ (fun b h1 h2 => h b (hf b ⟨h1, h2⟩))
   unfold service
   cases r.kind with
@@ -716,36 +716,36 @@ theorem service_congr (nb : Nat) (r : Req) (m m' : Store) (S : Nat → Prop)
     · rfl
     · exact h b hb
 
-theorem service_frame (nb : Nat) (r : Req) (m : Store) (S : Nat → Prop)
-    (hd : ∀ b, footprint nb r b → ¬ S b) : AgreeOn S (service nb r m).2 m := by
+theorem service_frame (r : Req) (m : Store) (S : Nat → Prop)
+    (hd : ∀ b, footprint r b → ¬ S b) : AgreeOn S (service r m).2 m := by
   intro b hb
-  have hn : ¬ (r.addr ≤ b ∧ b < r.addr + nbytes nb r.len) := fun h => hd b h hb
+  have hn : ¬ (r.addr ≤ b ∧ b < r.addr + nbytes r.nb r.len) := fun h => hd b h hb
   unfold service
   cases r.kind with
   | read => rfl
   | write => simp only [writeLE_byte, if_neg hn]
   | amo op => simp only [writeLE_byte, if_neg hn]
 
-theorem runLog_disjoint (nb : Nat) (region : Nat → Nat → Prop)
+theorem runLog_disjoint (region : Nat → Nat → Prop)
     (hdisj : ∀ i j b, i ≠ j → region i b → ¬ region j b) (i : Nat) :
     ∀ (log : List (Nat × Req)) (m m' : Store),
-      (∀ e ∈ log, ∀ b, footprint nb e.2 b → region e.1 b) → AgreeOn (region i) m m' →
-      portResps i (runLog nb log m).1 = (seqSpec nb (procs i log) m').1 ∧
-      AgreeOn (region i) (runLog nb log m).2 (seqSpec nb (procs i log) m').2
+      (∀ e ∈ log, ∀ b, footprint e.2 b → region e.1 b) → AgreeOn (region i) m m' →
+      portResps i (runLog log m).1 = (seqSpec (procs i log) m').1 ∧
+      AgreeOn (region i) (runLog log m).2 (seqSpec (procs i log) m').2
   | [], m, m', _, h => ⟨rfl, h⟩
   | (j, r) :: rs, m, m', hf, h => by
     have hfr := hf (j, r) (by simp)
-    have hrest : ∀ e ∈ rs, ∀ b, footprint nb e.2 b → region e.1 b := fun e he => hf e (by simp [he])
+    have hrest : ∀ e ∈ rs, ∀ b, footprint e.2 b → region e.1 b := fun e he => hf e (by simp [he])
     by_cases hj : j = i
     · subst hj
-      have hc := service_congr nb r m m' (region j) hfr h
-      have ih := runLog_disjoint nb region hdisj j rs _ _ hrest hc.2
+      have hc := service_congr r m m' (region j) hfr h
+      have ih := runLog_disjoint region hdisj j rs _ _ hrest hc.2
       have e1 : procs j ((j, r) :: rs) = r :: procs j rs := by simp [procs]
       rw [e1]
       simp only [runLog, seqSpec, portResps, List.filter_cons, beq_self_eq_true, if_true, List.map_cons]
       exact ⟨by rw [hc.1]; congr 1; exact ih.1, ih.2⟩
-    · have hfrm := service_frame nb r m (region i) (fun b hb hi => hdisj j i b hj (hfr b hb) hi)
-      have ih := runLog_disjoint nb region hdisj i rs (service nb r m).2 m' hrest
+    · have hfrm := service_frame r m (region i) (fun b hb hi => hdisj j i b hj (hfr b hb) hi)
+      have ih := runLog_disjoint region hdisj i rs (service r m).2 m' hrest
         (fun b hb => (hfrm b hb).trans (h b hb))
       have e1 : procs i ((j, r) :: rs) = procs i rs := by simp [procs, hj]
       have e2 : (j == i) = false := by simp [hj]
@@ -768,19 +768,19 @@ theorem mem_procs_of_mem : ∀ (log : List (Nat × Req)) (e : Nat × Req), e ∈
 
 /-- if the ports work on pairwise disjoint regions, each port's responses are those of the
 sequential specification applied to *its own* request list, whatever the interleaving -/
-theorem Inv.disjoint {n nb : Nat} {reqs : Nat → List Req} {m0 : Store} {view : Nat → View}
+theorem Inv.disjoint {n : Nat} {reqs : Nat → List Req} {m0 : Store} {view : Nat → View}
     {store : Store} {log : List (Nat × Req)} {rlog : List (Nat × Resp)}
-    (h : Inv n nb reqs m0 view store log rlog) (region : Nat → Nat → Prop)
+    (h : Inv n reqs m0 view store log rlog) (region : Nat → Nat → Prop)
     (hdisj : ∀ i j b, i ≠ j → region i b → ¬ region j b)
-    (hreg : ∀ i, ∀ r ∈ reqs i, ∀ b, footprint nb r b → region i b) (i : Nat) :
-    (view i).delivered <+: (seqSpec nb (reqs i) m0).1 ∧
-    ((view i).pending = [] → (view i).inReq = [] → AgreeOn (region i) store (seqSpec nb (reqs i) m0).2) := by
-  have hlog : ∀ e ∈ log, ∀ b, footprint nb e.2 b → region e.1 b := by
+    (hreg : ∀ i, ∀ r ∈ reqs i, ∀ b, footprint r b → region i b) (i : Nat) :
+    (view i).delivered <+: (seqSpec (reqs i) m0).1 ∧
+    ((view i).pending = [] → (view i).inReq = [] → AgreeOn (region i) store (seqSpec (reqs i) m0).2) := by
+  have hlog : ∀ e ∈ log, ∀ b, footprint e.2 b → region e.1 b := by
     intro e he b hb
     have h1 := mem_procs_of_mem log e he
     obtain ⟨t, ht⟩ := h.procs_prefix e.1
     exact hreg e.1 e.2 (by rw [← ht]; exact List.mem_append_left _ h1) b hb
-  have hd := runLog_disjoint nb region hdisj i log m0 m0 hlog (fun _ _ => rfl)
+  have hd := runLog_disjoint region hdisj i log m0 m0 hlog (fun _ _ => rfl)
   rw [h.spec] at hd
   obtain ⟨t, ht⟩ := h.procs_prefix i
   constructor
@@ -799,8 +799,8 @@ namespace CL
 
 def Port.view (p : Port) : View := ⟨p.pending, p.reqQ.contents, p.respQ.contents, p.delivered⟩
 
-def SInv (n nb : Nat) (reqs : Nat → List Req) (m0 : Store) (s : Sys) : Prop :=
-  Inv n nb reqs m0 (fun i => (s.ports i).view) s.store s.log s.rlog
+def SInv (n : Nat) (reqs : Nat → List Req) (m0 : Store) (s : Sys) : Prop :=
+  Inv n reqs m0 (fun i => (s.ports i).view) s.store s.log s.rlog
 
 theorem respTick_local (e : Env) (p : Port) : p.view.Local (respTick e p).view := by
   have h := SendPipe.tick_contents e.sinkRdy p.respQ
@@ -833,14 +833,14 @@ theorem srcSend_local (e : Env) (p : Port) : p.view.Local (srcSend e p).view := 
 theorem portPre_local (e : Env) (p : Port) : p.view.Local (portPre e p).view :=
   ((respTick_local e p).trans (reqTick_local _)).trans (srcSend_local e _)
 
-theorem prePort_inv {n nb reqs m0} (env : Nat → Env) (i : Nat) (s : Sys) (h : SInv n nb reqs m0 s) :
-    SInv n nb reqs m0 (prePort env i s) := by
+theorem prePort_inv {n reqs m0} (env : Nat → Env) (i : Nat) (s : Sys) (h : SInv n reqs m0 s) :
+    SInv n reqs m0 (prePort env i s) := by
   refine Inv.local_step h _ i ?_ ?_
   · intro j hj; simp [prePort, updPort, hj]
   · simp only [prePort, updPort, if_true]; exact portPre_local _ _
 
-theorem memPort_inv {n nb reqs m0} (env : Nat → Env) (i : Nat) (hi : i < n) (s : Sys)
-    (h : SInv n nb reqs m0 s) : SInv n nb reqs m0 (memPort nb env i s) := by
+theorem memPort_inv {n reqs m0} (env : Nat → Env) (i : Nat) (hi : i < n) (s : Sys)
+    (h : SInv n reqs m0 s) : SInv n reqs m0 (memPort env i s) := by
   unfold memPort
   simp only []
   split
@@ -867,22 +867,22 @@ theorem memPort_inv {n nb reqs m0} (env : Nat → Env) (i : Nat) (hi : i < n) (s
           · simp [Port.view, SendPipe.enq_contents _ _ hr]
       · exact h
 
-theorem cycle_inv {n nb reqs m0} (env : Nat → Env) (s : Sys) (h : SInv n nb reqs m0 s) :
-    SInv n nb reqs m0 (cycle n nb env s) := by
+theorem cycle_inv {n reqs m0} (env : Nat → Env) (s : Sys) (h : SInv n reqs m0 s) :
+    SInv n reqs m0 (cycle n env s) := by
   unfold cycle
   apply forPorts_inv _ _ n (fun i s hi hs => memPort_inv env i hi s hs) n (Nat.le_refl _)
   exact forPorts_inv _ _ n (fun i s _ hs => prePort_inv env i s hs) n (Nat.le_refl _) s h
 
-theorem init_inv (n nb latency : Nat) (reqs : Nat → List Req) (m0 : Store) :
-    SInv n nb reqs m0 (init latency reqs m0) := by
+theorem init_inv (n latency : Nat) (reqs : Nat → List Req) (m0 : Store) :
+    SInv n reqs m0 (init latency reqs m0) := by
   refine ⟨rfl, ?_, ?_, ?_⟩
   · intro i; simp [init, Port.view, procs, Slots.contents_empty]
   · intro i; simp [init, Port.view, portResps, Slots.contents_empty]
   · intro e he; simp [init] at he
 
-theorem run_inv (n nb latency : Nat) (reqs : Nat → List Req) (m0 : Store) (env : Nat → Nat → Env) (T : Nat) :
-    SInv n nb reqs m0 (run n nb env T (init latency reqs m0)) :=
-  foldl_inv _ _ (fun s t hs => cycle_inv (env t) s hs) _ _ (init_inv n nb latency reqs m0)
+theorem run_inv (n latency : Nat) (reqs : Nat → List Req) (m0 : Store) (env : Nat → Nat → Env) (T : Nat) :
+    SInv n reqs m0 (run n env T (init latency reqs m0)) :=
+  foldl_inv _ _ (fun s t hs => cycle_inv (env t) s hs) _ _ (init_inv n latency reqs m0)
 
 end CL
 
@@ -891,18 +891,18 @@ namespace RTL
 
 def Port.view (p : Port) : View := ⟨p.pending, [], p.pipe.slots.contents, p.delivered⟩
 
-def SInv (n nb : Nat) (reqs : Nat → List Req) (m0 : Store) (s : Sys) : Prop :=
-  Inv n nb reqs m0 (fun i => (s.ports i).view) s.store s.log s.rlog ∧ ∀ i, (s.ports i).pipe.OK
+def SInv (n : Nat) (reqs : Nat → List Req) (m0 : Store) (s : Sys) : Prop :=
+  Inv n reqs m0 (fun i => (s.ports i).view) s.store s.log s.rlog ∧ ∀ i, (s.ports i).pipe.OK
 
 theorem deliver_view (p : Port) (q : IPipe Resp) (out : Option Resp) (pend : List Req) :
     (deliver p q out pend).view = ⟨pend, [], q.slots.contents, p.delivered ++ out.toList⟩ ∧
     (deliver p q out pend).pipe = q := by
   cases out <;> simp [deliver, Port.view]
 
-theorem portCycle_inv {n nb reqs m0} (env : Nat → Env) (i : Nat) (hi : i < n) (s : Sys)
-    (h : SInv n nb reqs m0 s) : SInv n nb reqs m0 (portCycle nb env i s) := by
+theorem portCycle_inv {n reqs m0} (env : Nat → Env) (i : Nat) (hi : i < n) (s : Sys)
+    (h : SInv n reqs m0 s) : SInv n reqs m0 (portCycle env i s) := by
   obtain ⟨hI, hO⟩ := h
-  have idle : SInv n nb reqs m0 { s with ports := updPort s.ports i (idle (env i) (s.ports i)) } := by
+  have idle : SInv n reqs m0 { s with ports := updPort s.ports i (idle (env i) (s.ports i)) } := by
     unfold RTL.idle
     simp only []
     have he := IPipe.edge_spec (s.ports i).pipe (hO i) false ⟨0, 0, 0, 0, 0⟩ (env i).sinkRdy
@@ -924,7 +924,7 @@ theorem portCycle_inv {n nb reqs m0} (env : Nat → Env) (i : Nat) (hi : i < n) 
     split
     · next hc =>
       have hr : (s.ports i).pipe.recvRdy = true := by simp_all
-      have he := IPipe.edge_spec (s.ports i).pipe (hO i) true (service nb r s.store).1 (env i).sinkRdy
+      have he := IPipe.edge_spec (s.ports i).pipe (hO i) true (service r s.store).1 (env i).sinkRdy
       constructor
       · refine Inv.service_step hI _ i hi ?_ r ?_
         · intro j hj; simp [updPort, hj]
@@ -939,20 +939,20 @@ theorem portCycle_inv {n nb reqs m0} (env : Nat → Env) (i : Nat) (hi : i < n) 
     · exact idle
   · exact idle
 
-theorem cycle_inv {n nb reqs m0} (env : Nat → Env) (s : Sys) (h : SInv n nb reqs m0 s) :
-    SInv n nb reqs m0 (cycle n nb env s) :=
+theorem cycle_inv {n reqs m0} (env : Nat → Env) (s : Sys) (h : SInv n reqs m0 s) :
+    SInv n reqs m0 (cycle n env s) :=
   forPorts_inv _ _ n (fun i s hi hs => portCycle_inv env i hi s hs) n (Nat.le_refl _) s h
 
-theorem init_inv (n nb extra : Nat) (reqs : Nat → List Req) (m0 : Store) :
-    SInv n nb reqs m0 (init extra reqs m0) := by
+theorem init_inv (n extra : Nat) (reqs : Nat → List Req) (m0 : Store) :
+    SInv n reqs m0 (init extra reqs m0) := by
   refine ⟨⟨rfl, ?_, ?_, ?_⟩, fun i => IPipe.init_ok _ (by omega)⟩
   · intro i; simp [init, Port.view, procs]
   · intro i; simp [init, Port.view, portResps, IPipe.init, Slots.contents_empty]
   · intro e he; simp [init] at he
 
-theorem run_inv (n nb extra : Nat) (reqs : Nat → List Req) (m0 : Store) (env : Nat → Nat → Env) (T : Nat) :
-    SInv n nb reqs m0 (run n nb env T (init extra reqs m0)) :=
-  foldl_inv _ _ (fun s t hs => cycle_inv (env t) s hs) _ _ (init_inv n nb extra reqs m0)
+theorem run_inv (n extra : Nat) (reqs : Nat → List Req) (m0 : Store) (env : Nat → Nat → Env) (T : Nat) :
+    SInv n reqs m0 (run n env T (init extra reqs m0)) :=
+  foldl_inv _ _ (fun s t hs => cycle_inv (env t) s hs) _ _ (init_inv n extra reqs m0)
 
 end RTL
 
